@@ -237,7 +237,76 @@ def readblock_work(P, item):
     explore(run, bound=3, on_path=on_path, stats=P.stats, deadline_s=900)
 
 
+# ---------------------------------------------------------------- D: the time stamp arithmetic itself
+def mjd_work(P, item):
+    """Header.mjd_after_nsamps / obs_time (real bytecode) over an astropy Time contract: Time(mjd) + TimeDelta(s seconds)
+    has .mjd = mjd + s/86400.  Decides that the product handed to TimeDelta is nsamps*tsamp in seconds and that the
+    epoch is the header's tstart in MJD."""
+    from ..core import rebind
+    from sigpyproc import header
+
+    class TimeStub:
+        def __init__(self, val, format=None, scale=None, precision=None):
+            self.val, self.format, self.scale = val, format, scale
+
+        def __add__(self, d):
+            if not isinstance(d, DeltaStub):
+                raise TypeError("Time + non-TimeDelta")
+            r = TimeStub(self.val, self.format, self.scale)
+            r.val = self.val + d.days
+            return r
+
+        @property
+        def mjd(self):
+            if self.format != "mjd":
+                raise Unsupported("epoch not given as MJD")
+            return self.val
+
+    class DeltaStub:
+        def __init__(self, val, format=None):
+            self.days = {"sec": val / 86400, "jd": val}[format]
+
+    class NPt:
+        @staticmethod
+        def log10(x):
+            return 0.0
+
+        @staticmethod
+        def ceil(x):
+            return 4.0
+
+    def run(ctx):
+        t0, ts, n = SReal(z3.Real("tstart")), SReal(z3.Real("tsamp")), SInt(z3.Int("nsamps"))
+        ctx.assume(z3.And(ts.e > 0, n.e >= 0))
+
+        class H:
+            tstart, tsamp = t0, ts
+            obs_time = property(rebind(header.Header.obs_time.fget, Time=TimeStub, np=NPt, abs=lambda v: v, int=lambda v: 4))
+        return rebind(header.Header.mjd_after_nsamps, TimeDelta=DeltaStub)(H(), n), t0, ts, n
+
+    def on_path(ctx, o):
+        Ctx.cur = ctx
+        P.reached += 1
+        got, t0, ts, n = o
+        from ..core import wrap
+        bad = wrap(got).e != t0.e + z3.ToReal(n.e) * ts.e / 86400
+        if ctx.check(bad) == z3.unsat:
+            P.obligation("mjd_after_nsamps(n) = tstart + n*tsamp/86400 days", "holds", symbolic=True)
+        else:
+            params = dict(kind="mjd")
+            src = ("import sys, json\nfrom symx.concrete import c08\n"
+                   f"sys.exit(c08.main(json.loads({json.dumps(json.dumps(params))})))\n")
+            P.violation("mjd_after_nsamps", "mjd_after_nsamps(n) != tstart + n*tsamp/86400", src, model=params)
+        Ctx.cur = None
+    try:
+        explore(run, bound=2, on_path=on_path, stats=P.stats, deadline_s=120)
+    except Inconclusive as e:
+        P.inconclusive_(f"mjd_after_nsamps: {e}")
+
+
 def work(P, item):
+    if item[0] == "mjd":
+        return mjd_work(P, item)
     if item[0] == "container":
         return container_work(P, item)
     if item[0] == "readblock":
@@ -253,7 +322,8 @@ def run(R):
     R.bounds["channelisations"] = [list(c) for c in chans]
     R.bounds["read_block_fch1"] = "k symbolic in [0,4096] (16-bit bit-vector -> IEEE double), channelisation from the list above"
     R.assume("Header.new_header applies the update dictionary it is given (recorded, not re-implemented)",
-             "mjd_after_nsamps(start) is an uninterpreted application (astropy Time arithmetic to 5 us is outside the claim)",
+             "in the streaming harnesses mjd_after_nsamps(start) is an uninterpreted application; the method itself is decided separately over an astropy Time/TimeDelta contract "
+             "(Time(mjd)+TimeDelta(s, 'sec') has mjd + s/86400); astropy's own two-double arithmetic (the 5 us tolerance) is outside the claim",
              "channel labels compared in exact arithmetic on the double values of fch1/foff (tolerance 1e-9 relative)")
     R.out_of_claim("float32 chan_freqs arrays", "channelisations not in the list", "PSRFITS headers (C18)")
     items = []
@@ -269,6 +339,8 @@ def run(R):
         items.append(("container", op, 8, 2, 3))
     for f0, fo in (chans[:1] if quick else chans):
         items.insert(0, ("readblock", f0, fo, 4096))
+    items.append(("mjd",))
+    R.encode(header.Header.mjd_after_nsamps, header.Header.obs_time.fget)
     parts = R.pmap(work, items)
     R.vacuity_witness("c08", sum(p.reached for p in parts) > 0)
     # twin: the truncating variant of the expression must be refuted for (1500, -0.1)
